@@ -4,7 +4,8 @@
 # without the verif tag), passes the pinned baseline suite, that its demonstration fails with
 # the change and passes without it. Prints one JSON line.
 export GOFLAGS=-mod=mod GOPROXY=off GOSUMDB=off GOTOOLCHAIN=local
-id="$1"; src="$2"
+id="$1"; src="$(cd "$2" && pwd)"
+tools="$(cd "$(dirname "$0")" && pwd)"
 wt="/tmp/vet-$id-$$"
 git -C /repo worktree add -q --detach "$wt" HEAD || exit 2
 cleanup() { git -C /repo worktree remove --force "$wt" >/dev/null 2>&1; }
@@ -15,7 +16,7 @@ if git apply "$src/patch.diff" 2>/dev/null; then applies=true; fi
 if go build ./... >/dev/null 2>&1 && go build -tags verif ./... >/dev/null 2>&1; then builds=true; fi
 out="$(mktemp)"
 go test -json -vet=off -count=1 ./... > "$out" 2>&1
-if python3 - "$out" "$(cd "$(dirname "$0")" && pwd)/baseline_tests.txt" <<'PY'
+if python3 - "$out" "$tools/baseline_tests.txt" <<'PY'
 import json,sys
 passed=set()
 for l in open(sys.argv[1]):
